@@ -259,8 +259,9 @@ int main(void) {
             printf("ok\n");
         } else if (!strcmp(cmd, "setpath") || !strcmp(cmd, "addpath") || !strcmp(cmd, "cfgset") || !strcmp(cmd, "cfgadd")) {
             sscanf(line, "%*s %s", a[0]); unhex(a[0], b[0]);
-            int e = !strcmp(cmd, "setpath") ? cg_set_path(b[0]) : !strcmp(cmd, "addpath") ? cg_add_path(b[0]) :
-                    !strcmp(cmd, "cfgset") ? cg_configure(CG_CONFIG_SET_PATH, b[0]) : cg_configure(CG_CONFIG_ADD_PATH, b[0]);
+            char *arg = strcmp(a[0], "NULL") ? b[0] : NULL;          /* NULL = a NULL pointer, - = the empty string */
+            int e = !strcmp(cmd, "setpath") ? cg_set_path(arg) : !strcmp(cmd, "addpath") ? cg_add_path(arg) :
+                    !strcmp(cmd, "cfgset") ? cg_configure(CG_CONFIG_SET_PATH, arg) : cg_configure(CG_CONFIG_ADD_PATH, arg);
             printf(e ? "err cg\n" : "ok\n");
         } else if (!strcmp(cmd, "mkfile")) {
             int nz, wc, ws; unsigned seed; sscanf(line, "%*s %s %d %u %d %d", a[0], &nz, &seed, &wc, &ws); unhex(a[0], b[0]);
